@@ -94,7 +94,14 @@ Theorem positive_context_truth : forall o ids body c x x' d,
   (exists r, solve o ids body x d = Ok r) -> (exists r, solve o ids body x' d = Ok r) ->
   (forall y, In y (ctx_siblings c) -> exists r, solve o ids body y d = Ok r) ->
   (solve o ids body (plug c x) d = Ok T <-> solve o ids body (plug c x') d = Ok T).
-Proof. exact C17.positive_context_truth. Qed.
+Proof.
+  exact (C17.positive_context_truth_gen pos_ctx PHole PGroup PBexpL PBexpR pos_ctx_ind
+           plug ctx_ok ctx_siblings
+           (fun _ => eq_refl) (fun _ _ _ _ _ => eq_refl) (fun _ _ _ _ => eq_refl)
+           (fun _ _ _ _ => eq_refl)
+           eq_refl (fun _ _ _ _ => eq_refl) (fun _ _ _ => eq_refl) (fun _ _ _ => eq_refl)
+           eq_refl (fun _ _ _ _ => eq_refl) (fun _ _ _ => eq_refl) (fun _ _ _ => eq_refl)).
+Qed.
 Check positive_context_truth.
 Print Assumptions positive_context_truth.
 
